@@ -56,7 +56,8 @@ func PfxID(p *bnet.Prefix) int {
 	return int(p.Addr().ToUint32()>>16) & 0xff
 }
 
-func IP(v uint32) *bnet.IP { return bnet.IPv4(v).Ptr() }
+// IP returns the deduplicated address object, as the decoder and the peer configuration do
+func IP(v uint32) *bnet.IP { return bnet.IPv4(v).Dedup() }
 
 // ---------------------------------------------------------------- sessions
 
